@@ -34,8 +34,8 @@ structure Post (sch : Schema) (P : ObjId → Prop) (o : ObjId) (s s' : Store) : 
   dead : s'.alive o = false ∨ P o
   newdead : ∀ x, s.alive x = true → s'.alive x = false → Reach sch s o x
 
-def DelSpec (sch : Schema) (del : List ObjId → ObjId → Store → R) : Prop :=
-  ∀ (Pl : List ObjId) (o : ObjId) (s s' : Store), del Pl o s = .ok s' → Range sch s →
+def DelSpec (sch : Schema) (ct : ClassTable) (del : List ObjId → ObjId → Store → R) : Prop :=
+  ∀ (Pl : List ObjId) (o : ObjId) (s s' : Store), del Pl o s = .ok s' → Range sch ct s →
     AgreeX sch (fun x => x ∈ Pl) s → NoDangX sch (fun x => x ∈ Pl) s → Post sch (fun x => x ∈ Pl) o s s'
 
 /-- loop rule with the step hypothesis restricted to the elements of the list -/
@@ -63,7 +63,7 @@ def CascWF (sch : Schema) : Prop :=
   ∀ a d rd, sch.side a = some d → sch.side (sch.rev a) = some rd → d.cascade = true → rd.isColl = false
 
 section frame
-variable {sch : Schema}
+variable {sch : Schema} {ct : ClassTable}
 
 /-- state of the frame of `o` (started at `s0`) between two steps; `Q` = the in-progress set including `o` -/
 structure FrameSt (sch : Schema) (Q : ObjId → Prop) (o : ObjId) (s0 s : Store) : Prop where
@@ -103,12 +103,12 @@ theorem FrameSt.ofPost {Q : ObjId → Prop} {o x : ObjId} {s0 s s' : Store} (hF 
 
 variable {guard : Bool} {fuel : Nat} {Pl : List ObjId}
 
-theorem collStep_ok (ih : DelSpec sch (delete sch guard fuel)) {o : ObjId} {c : Attr} {s0 s s' : Store}
-    (hR : Range sch s0) (hF : FrameSt sch (fun x => x ∈ o :: Pl) o s0 s)
-    (h : collStep sch (fun x s => delete sch guard fuel (o :: Pl) x s) o c s = .ok s') :
+theorem collStep_ok (ih : DelSpec sch ct (delete sch ct guard fuel)) {o : ObjId} {c : Attr} {s0 s s' : Store}
+    (hR : Range sch ct s0) (hF : FrameSt sch (fun x => x ∈ o :: Pl) o s0 s)
+    (h : collStep sch (fun x s => delete sch ct guard fuel (o :: Pl) x s) o c s = .ok s') :
     Sub sch s s' ∧ FrameSt sch (fun x => x ∈ o :: Pl) o s0 s' ∧
       (sch.isCollAttr c = true → ProcAt sch (fun x => x ∈ o :: Pl) o c s') := by
-  have hRs : Range sch s := hF.trans.sub.range hR
+  have hRs : Range sch ct s := hF.trans.sub.range hR
   unfold collStep at h
   split at h
   · rename_i d rd hd hrd
@@ -142,7 +142,7 @@ theorem collStep_ok (ih : DelSpec sch (delete sch guard fuel)) {o : ObjId} {c : 
               intro x hx
               refine ⟨c, hcs, hF.trans.sub.has _ _ _ ?_⟩
               rw [hasB_coll_eq hd hdc]; exact (mem_members.mp hx).2
-            obtain ⟨hI, hG, hQ⟩ := iterE_rule' (f := fun x s => delete sch guard fuel (o :: Pl) x s)
+            obtain ⟨hI, hG, hQ⟩ := iterE_rule' (f := fun x s => delete sch ct guard fuel (o :: Pl) x s)
               (I := Sub sch) (G := FrameSt sch (fun x => x ∈ o :: Pl) o s0)
               (Q := fun x s => s.alive x = false ∨ x ∈ o :: Pl)
               (Sub.refl sch) (fun _ _ _ => Sub.trans)
@@ -172,12 +172,12 @@ theorem collStep_ok (ih : DelSpec sch (delete sch guard fuel)) {o : ObjId} {c : 
             · cases h
   · cases h
 
-theorem refStep_ok (hwf : CascWF sch) (ih : DelSpec sch (delete sch guard fuel)) {o : ObjId} {a : Attr} {s0 s s' : Store}
-    (hR : Range sch s0) (hF : FrameSt sch (fun x => x ∈ o :: Pl) o s0 s)
-    (h : refStep sch guard (fun x s => delete sch guard fuel (o :: Pl) x s) o a s = .ok s') :
+theorem refStep_ok (hwf : CascWF sch) (ih : DelSpec sch ct (delete sch ct guard fuel)) {o : ObjId} {a : Attr} {s0 s s' : Store}
+    (hR : Range sch ct s0) (hF : FrameSt sch (fun x => x ∈ o :: Pl) o s0 s)
+    (h : refStep sch guard (fun x s => delete sch ct guard fuel (o :: Pl) x s) o a s = .ok s') :
     Sub sch s s' ∧ FrameSt sch (fun x => x ∈ o :: Pl) o s0 s' ∧
       (sch.isCollAttr a = false → ProcAt sch (fun x => x ∈ o :: Pl) o a s') := by
-  have hRs : Range sch s := hF.trans.sub.range hR
+  have hRs : Range sch ct s := hF.trans.sub.range hR
   unfold refStep at h
   split at h
   · rename_i d rd hd hrd
@@ -279,7 +279,7 @@ theorem refStep_ok (hwf : CascWF sch) (ih : DelSpec sch (delete sch guard fuel))
 theorem memcons_eq (o : ObjId) (Pl : List ObjId) : (fun x => x ∈ o :: Pl) = (fun x => x = o ∨ x ∈ Pl) := by
   funext x; simp
 
-theorem delete_spec (hwf : CascWF sch) (guard : Bool) : ∀ fuel, DelSpec sch (delete sch guard fuel) := by
+theorem delete_spec (hwf : CascWF sch) (guard : Bool) : ∀ fuel, DelSpec sch ct (delete sch ct guard fuel) := by
   intro fuel
   induction fuel with
   | zero => intro Pl o s s' h; simp [delete] at h
@@ -311,24 +311,24 @@ theorem delete_spec (hwf : CascWF sch) (guard : Bool) : ∀ fuel, DelSpec sch (d
                 · exact Or.inr ⟨by simp [hP], hc⟩
               · intro p b q hp hnp hh
                 exact hN p b q hp (fun hP => hnp (by simp [hP])) hh
-            obtain ⟨hI1, hG1, hQ1⟩ := iterE_rule' (f := collStep sch (fun x s => delete sch guard fuel (o :: Pl) x s) o)
+            obtain ⟨hI1, hG1, hQ1⟩ := iterE_rule' (f := collStep sch (fun x s => delete sch ct guard fuel (o :: Pl) x s) o)
               (I := Sub sch) (G := FrameSt sch (fun x => x ∈ o :: Pl) o s)
               (Q := fun c st => sch.isCollAttr c = true → ProcAt sch (fun x => x ∈ o :: Pl) o c st)
               (Sub.refl sch) (fun _ _ _ => Sub.trans) (fun c sa sb hs hq hc => (hq hc).mono hs)
-              (sch.attrsOf (s.ent o)) (fun c _ sa sb hG hc => collStep_ok ih hR hG hc) s s1 hF0 h1
-            obtain ⟨hI2, hG2, hQ2⟩ := iterE_rule' (f := refStep sch guard (fun x s => delete sch guard fuel (o :: Pl) x s) o)
+              (ct (s.ent o)) (fun c _ sa sb hG hc => collStep_ok ih hR hG hc) s s1 hF0 h1
+            obtain ⟨hI2, hG2, hQ2⟩ := iterE_rule' (f := refStep sch guard (fun x s => delete sch ct guard fuel (o :: Pl) x s) o)
               (I := Sub sch) (G := FrameSt sch (fun x => x ∈ o :: Pl) o s)
               (Q := fun a st => sch.isCollAttr a = false → ProcAt sch (fun x => x ∈ o :: Pl) o a st)
               (Sub.refl sch) (fun _ _ _ => Sub.trans) (fun c sa sb hs hq hc => (hq hc).mono hs)
-              (sch.attrsOf (s.ent o)) (fun a _ sa sb hG ha => refStep_ok hwf ih hR hG ha) s1 s2 hG1 h2
-            have hR2 : Range sch s2 := hG2.trans.sub.range hR
+              (ct (s.ent o)) (fun a _ sa sb hG ha => refStep_ok hwf ih hR hG ha) s1 s2 hG1 h2
+            have hR2 : Range sch ct s2 := hG2.trans.sub.range hR
             -- every attribute under which `o` still holds something has been dealt with
             have hproc : ∀ b, ProcAt sch (fun x => x ∈ o :: Pl) o b s2 := by
               intro b p hp
-              obtain ⟨d, hd⟩ := hasB_side hp
-              have hent := hR2.ent o b p d hp hd
-              rw [hG2.trans.sub.ent] at hent
-              have hmem : b ∈ sch.attrsOf (s.ent o) := hent ▸ Schema.mem_attrsOf hd
+              have hmem : b ∈ ct (s.ent o) := by
+                have := hR2.ent o b p hp
+                rw [hG2.trans.sub.ent] at this
+                exact this
               cases hic : sch.isCollAttr b with
               | true => exact (hQ1 b hmem hic).mono hI2 p hp
               | false => exact hQ2 b hmem hic p hp
